@@ -330,6 +330,18 @@ func c18Check(c *Ctx, p *Prog, m *Model) {
 		if ex, ok := v.(*ssa.Extract); ok {
 			if call, ok := ex.Tuple.(*ssa.Call); ok {
 				if cal := calleeOf(call); cal != nil && cal.String() == "path/filepath.Rel" {
+					// relative to the working directory of NOW (os.Getwd in this call), not one remembered earlier
+					cwdNow := false
+					for _, sv := range sources(call.Common().Args[0]) {
+						if e0, isEx := sv.(*ssa.Extract); isEx {
+							if c0, isC := e0.Tuple.(*ssa.Call); isC {
+								if cal0 := calleeOf(c0); cal0 != nil && cal0.String() == "os.Getwd" {
+									cwdNow = true
+								}
+							}
+						}
+					}
+					r.Check(cwdNow, "R18.2", key+":relative-base", p.Pos(instrPos(ret)), "the relative path is taken against os.Getwd() of this call", "the relative path is computed against a directory remembered earlier, not the current working directory: after a chdir it names a different file")
 					// guarded by IsAbs(current) and len(rel) < len(current)
 					// facts known at the return from the dominating branch edges (in whatever form the tests are
 					// written: nested ifs, early returns, negations): IsAbs(current) and len(rel) < len(current)
